@@ -354,11 +354,10 @@ QLays   == <<"wide", "one", "spacey">>
 Variants(cp, toks) ==
   LET h == cp[1] * 11 + cp[2] * 3 + Seed IN
   IF Tier = "t"
-  THEN <<V("std", "none", "prog", toks, h), V("wide", "none", "prog", toks, h), V("one", "none", "prog", toks, h), V("spacey", "none", "prog", toks, h),
+  THEN <<V("std", "none", "prog", toks, h), V("wide", "none", "prog", toks, h), V("one", "none", "prog", toks, h),
          V("std", "lc", "prog", toks, h), V("std", "bc", "prog", toks, h), V("std", "ol", "prog", toks, h), V("std", "ob", "prog", toks, h),
          V("std", "mix", "prog", toks, h), V("wide", "mix", "prog", toks, h), V("one", "bc", "prog", toks, h + 1),
          V("spacey", "mix", "prog", toks, h),
-         V("std", "lc1", "prog", toks, h), V("wide", "bc1", "prog", toks, h + 1),
          V("std", "none", "frag", toks, h), V("std", "mix", "frag", toks, h)>>
   ELSE <<V("std", QModes1[(h % 4) + 1], IF h % 5 = 0 THEN "frag" ELSE "prog", toks, h),
          V(QLays[(h % 3) + 1], QModes2[((h \div 3) % 6) + 1], IF h % 5 = 1 THEN "frag" ELSE "prog", toks, h)>>
@@ -427,10 +426,11 @@ HeaderBraceSound == pc = "post" /\ cell.simple =>
                       \A k \in HeaderKeywords(cell.toks) : LET i == BodyBrace(cell.toks, k, Impl) IN i > 0 /\ cell.toks[i].body
 \* comment placements name existing tokens, and line-ending kinds only tokens after which a line may end
 PlacementsSound == pc = "post" =>
-                     \A vi \in DOMAIN Variants(ix, cell.toks) : LET v == Variants(ix, cell.toks)[vi] IN
-                       \A ci \in DOMAIN v.cm : \A n \in DOMAIN v.cm[ci].at :
-                          LET i == v.cm[ci].at[n] IN
+                     LET vs == Variants(ix, cell.toks) IN
+                     \A vi \in DOMAIN vs :
+                       \A ci \in DOMAIN vs[vi].cm : \A n \in DOMAIN vs[vi].cm[ci].at :
+                          LET i == vs[vi].cm[ci].at[n] IN
                           /\ i \in 0..Len(cell.toks)
-                          /\ (v.cm[ci].k # "bc" /\ i > 0 => NLLegal(cell.toks[i]))
+                          /\ (vs[vi].cm[ci].k # "bc" /\ i > 0 => NLLegal(cell.toks[i]))
 TypeOK == pc \in {"pre", "post"} /\ ix \in Pairs
 =============================================================================
